@@ -2,25 +2,36 @@
 // C19 (thread-specific storage) - enumerable_thread_specific / combinable: one element per thread, one initialiser call
 // each, stable addresses, combine/iteration visit each element once, while the internal table grows.
 // -p pre=K (K threads register before the window)  -p n=N (N threads call local() for the first time inside the window)
-// -p kind=ets|ets_key|comb
+// -p kind=ets|ets_key|comb|ets_park (-p park=N: the first N table-array allocations wait for each other inside the allocator)
 #include <oneapi/tbb/enumerable_thread_specific.h>
 #include <oneapi/tbb/combinable.h>
 #include "vfh.h"
 #include <set>
 using namespace vfh;
 static int inits = 0;
+// Allocator whose table-array allocations (uintptr_t) can park the calling thread: allocate() sits between "the root was read" and
+// "the new array is published", so with -p park=N the window opens in the state where N threads are all inside that gap.
+static int park_want = 0, park_have = 0, park_open = 0;
+template <class U> struct ParkAlloc { using value_type = U; ParkAlloc() = default; template <class V> ParkAlloc(const ParkAlloc<V>&) {}
+    U* allocate(std::size_t n) { if (std::is_same<U, std::uintptr_t>::value && park_want && !park_open) { ++park_have; while (!park_open) vf_block_on(&park_open); }
+        return static_cast<U*>(tbb::detail::r1::cache_aligned_allocate(n * sizeof(U))); }
+    void deallocate(U* p, std::size_t) { tbb::detail::r1::cache_aligned_deallocate(p); }
+    template <class V> bool operator==(const ParkAlloc<V>&) const { return true; } template <class V> bool operator!=(const ParkAlloc<V>&) const { return false; } };
 struct Cell { int tag; int pad[3]; };
 template <class E> static void run_ets() {
-    int pre = (int)vf_param_int("pre", 0), n = (int)vf_param_int("n", 3);
+    int pre = (int)vf_param_int("pre", 0), n = (int)vf_param_int("n", 3); park_want = 0;
     E ets([] { ++inits; return Cell{0, {0, 0, 0}}; });
     std::vector<Cell*> addr(pre + n, nullptr), addr2(pre + n, nullptr); std::vector<int> exists(pre + n, -1);
     static int never; int parked = 0;
     for (int i = 0; i < pre; i++) spawn([&, i] { Cell& c = ets.local(); c.tag = 100 + i; addr[i] = addr2[i] = &c; exists[i] = 1; parked++; vf_block_on(&never); });   // registered threads stay alive, outside the window
     while (parked < pre) vf_yield();
+    park_want = (int)vf_param_int("park", 0); park_have = 0; park_open = 0; vf_liveness(1);
     auto ids = gated(n, nullptr,
                      [&](int j) { int i = pre + j; bool ex = true; Cell& c = ets.local(ex); exists[i] = ex; if (i >= pre) { if (c.tag != 0) vf_fail("thread %d got an element that already carries tag %d", i, c.tag); c.tag = 100 + i; addr[i] = &c; }
                                   Cell& d = ets.local(); addr2[i] = &d; if (d.tag != 100 + i) vf_fail("thread %d's second local() returned another element (tag %d)", i, d.tag); });
-    open_window_and_join(ids);
+    if (park_want) { vf_gate_open(); while (park_have < park_want) vf_yield();   // set-up outside the window: the first park_want threads are inside the allocator, between reading the root and publishing their array
+        vf_window(1); park_open = 1; vf_wake(&park_open); join_all(ids); vf_window(0); }
+    else open_window_and_join(ids);
     for (int i = 0; i < pre + n; i++) { if (addr[i] != addr2[i]) vf_fail("element of thread %d changed address", i); if (exists[i] != (i < pre)) vf_fail("local(exists) reported %d for thread %d", exists[i], i);
         for (int j = 0; j < i; j++) if (addr[i] == addr[j]) vf_fail("threads %d and %d share one element", i, j); }
     if (inits != pre + n) vf_fail("%d initialiser calls for %d threads", inits, pre + n);
@@ -46,8 +57,24 @@ static void run_comb() {
     int total = cb.combine([](int a, int b) { return a + b; }); int want = 0; for (int i = 0; i < pre + n; i++) want += 100 + i; if (total != want) vf_fail("combine() = %d, expected %d", total, want);
     vf_outcome("ok inits=%d", inits);
 }
+// swap / move assignment: the thread-to-element mapping travels with the contents
+template <class E> static void run_swap() { int mode = (int)vf_param_int("mode", 0);   // 0 swap, 1 move assignment
+    E a([] { ++inits; return Cell{0, {0, 0, 0}}; }), b([] { ++inits; return Cell{0, {0, 0, 0}}; }); static int phase; Cell* first[2] = {nullptr, nullptr};
+    auto ids = gated(2, nullptr, [&](int i) { E& mine = i == 0 ? a : b; Cell& c = mine.local(); c.tag = 100 + i; first[i] = &c; while (phase < 1) vf_block_on(&phase);
+        if (mode == 0) { E& other = i == 0 ? b : a; bool ex = false; Cell& d = other.local(ex); if (!ex || &d != first[i] || d.tag != 100 + i) vf_fail("after swap(a,b) thread %d does not find its element in the other container (exists=%d tag=%d)", i, ex, d.tag);
+                         bool ex2 = true; Cell& e = mine.local(ex2); if (ex2 || e.tag != 0) vf_fail("after swap(a,b) thread %d finds an old element (tag %d) in a container it never used", i, e.tag); }
+        else { bool ex = false; Cell& d = a.local(ex); if (i == 1) { if (!ex || &d != first[1] || d.tag != 101) vf_fail("after a = std::move(b) the thread that used b does not find its element in a (exists=%d tag=%d)", ex, d.tag); }
+               else { if (ex || d.tag != 0) vf_fail("after a = std::move(b) the thread that used the old a gets an element a no longer owns (exists=%d tag=%d)", ex, d.tag); } } });
+    vf_window(1); vf_gate_open(); while (!first[0] || !first[1]) vf_yield();
+    if (mode == 0) { E tmp(std::move(a)); a = std::move(b); b = std::move(tmp); } else a = std::move(b);
+    phase = 1; vf_wake(&phase); join_all(ids); vf_window(0);
+    size_t na = a.size(), nb = b.size(); if (mode == 0 ? (na != 2 || nb != 2) : (na != 2)) vf_fail("sizes after %s: a=%zu b=%zu", mode == 0 ? "swap" : "move", na, nb);
+    vf_outcome("ok mode=%d", mode); }
 static void scenario() { const char* k = vf_param("kind", "ets");
+    if (streq(k, "swap")) { run_swap<tbb::enumerable_thread_specific<Cell>>(); return; }
+    if (streq(k, "swap_key")) { run_swap<tbb::enumerable_thread_specific<Cell, tbb::cache_aligned_allocator<Cell>, tbb::ets_key_per_instance>>(); return; }
     if (streq(k, "ets")) run_ets<tbb::enumerable_thread_specific<Cell>>();
+    else if (streq(k, "ets_park")) run_ets<tbb::enumerable_thread_specific<Cell, ParkAlloc<Cell>>>();
     else if (streq(k, "ets_key")) run_ets<tbb::enumerable_thread_specific<Cell, tbb::cache_aligned_allocator<Cell>, tbb::ets_key_per_instance>>();
     else run_comb(); }
 int main(int argc, char** argv) { return vf_main(argc, argv, scenario); }
